@@ -93,7 +93,7 @@ def density_matrix(rng, n, kind):
 def gen_cases(pid, tier, seed):
     quick = tier == "quick"
     out = []
-    n = (10 if quick else 60)
+    n = (20 if quick else 80)
     for d in range(n):
         rng = cg.rng_for(seed, pid, d)
         lmax = 4 if pid == "C06" else 3
@@ -184,6 +184,14 @@ def replay_case(case):
                 lap, lapa = G.field(tabs["lap"])
                 cmp("evaluate_general_kinetic_energy_density(alpha=%r, %s)" % (alpha, dt),
                     dens.evaluate_general_kinetic_energy_density(P, shells, fpts, alpha, **k2), np.maximum(w, 0) + alpha * lap, gka)
+        # the building block itself, with different orders on the two sides
+        for o1, o2 in (((1, 0, 0), (0, 1, 0)), ((2, 0, 1), (0, 0, 0)), ((0, 1, 1), (1, 0, 2)), ((0, 0, 0), (0, 0, 0))):
+            g, gabs = G.g(o1, o2)
+            for dt in ("general", "direct"):
+                cmp("evaluate_deriv_reduced_density_matrix(%s, %s, %s)" % (o1, o2, dt),
+                    dens.evaluate_deriv_reduced_density_matrix(np.array(o1), np.array(o2), P, shells, fpts, deriv_type=dt, **kw), g, gabs)
+        phi0, _ = G.phi((0, 0, 0))
+        cmp("evaluate_density_using_evaluated_orbs", dens.evaluate_density_using_evaluated_orbs(P, phi0), rho, rhoa)
         if case["psd"]:
             cmp("evaluate_density", dens.evaluate_density(P, shells, fpts, threshold=1e-4 * (rhoa.max() + 1), **kw), np.maximum(rho, 0), rhoa)
             if rho.min() < -1e-9 * rhoa.max() or w.min() < -1e-9 * wa.max():
